@@ -95,12 +95,32 @@ func run(c *fw.Ctx) {
 			hi = total
 		}
 		done := uint64(0)
+		// a result handed out by Unpack must stay what it was: the slice
+		// returned for the previous group is compared again after the next call
+		var prev []uint8
+		var prevX uint64
 		for x := lo; x < hi; x++ {
+			var le [4]byte
+			le[0], le[1], le[2], le[3] = byte(x), byte(x>>8), byte(x>>16), byte(x>>24)
+			if x&0xff == 0 { // every 256th group: keeps the hot loop cheap
+				prev, prevX = parquet.VerifUnpack(w, le[:w]), x
+			}
 			if msg := checkOne(w, uint32(x), buf); msg != "" {
 				c.Violate(fmt.Sprintf("w%d:%s", w, firstWords(msg)), msg, "group", gcase{w, uint32(x)})
 				if c.Spec != nil && len(msg) > 0 {
 					// keep going: count all, but only distinct keys are kept
 				}
+			}
+			if prev != nil && x == prevX+1 {
+				mask := uint64(1)<<uint(w) - 1
+				for i := 0; i < 8; i++ {
+					if uint64(prev[i]) != prevX>>(uint(w)*uint(i))&mask {
+						msg := fmt.Sprintf("the slice returned by Unpack(width %d) for group %#x changed after a later Unpack call on another group (results share storage)", w, prevX)
+						c.Violate(fmt.Sprintf("w%d:Unpack result not retained", w), msg, "retain", gcase{w, uint32(prevX)})
+						break
+					}
+				}
+				prev = nil
 			}
 			done++
 			if x&0xffffff == 0 && c.Expired() {
@@ -131,6 +151,21 @@ func replay(c *fw.Ctx, kind string, data json.RawMessage) string {
 	var g gcase
 	if err := json.Unmarshal(data, &g); err != nil {
 		return "bad case: " + err.Error()
+	}
+	if kind == "retain" {
+		var le [4]byte
+		le[0], le[1], le[2], le[3] = byte(g.X), byte(g.X>>8), byte(g.X>>16), byte(g.X>>24)
+		first := parquet.VerifUnpack(g.Width, le[:g.Width])
+		snapshot := append([]uint8(nil), first...)
+		other := ^g.X
+		le[0], le[1], le[2], le[3] = byte(other), byte(other>>8), byte(other>>16), byte(other>>24)
+		parquet.VerifUnpack(g.Width, le[:g.Width])
+		for i := range snapshot {
+			if snapshot[i] != first[i] {
+				return "the slice returned by Unpack changed after a later Unpack call (results share storage)"
+			}
+		}
+		return ""
 	}
 	return checkOne(g.Width, g.X, make([]byte, 16))
 }
